@@ -167,6 +167,8 @@ def check_request(ctx, seed, k):
     if validate(schema, doc):
         return
     fault = [0.0, 0.0, 0.15][seed % 3]
+    if seed % 11 == 10:
+        fault = 0.25      # the split-defer family exists for fragments that fail while a sibling unit of work is running
     value_fn = make_value(schema, seed, fault)
     base_case = {"seed": seed, "source": src, "variables": variables, "fault_rate": fault}
     states = set()
